@@ -43,6 +43,11 @@ def feasible(path):
             if k in seen and seen[k] != ev.b:
                 return False
             seen[k] = ev.b
+        elif ev.kind == "havoc":
+            for tgt in ev.a:
+                for k in list(seen):
+                    if re.search(r"(?<![A-Za-z0-9_])%s(?![A-Za-z0-9_])" % re.escape(tgt), k):
+                        del seen[k]
         elif ev.kind in ("assign", "let"):
             tgt = ev.a
             for k in list(seen):
@@ -700,10 +705,19 @@ def end_arm(run, ctx):
         if lc[0].c:
             m = H.pat_match("Some({e})", lc[0].a)
             E = m.group("e") if m else "?"
-            pf = S.PathFacts(p.events)
-            capped = any(ev.kind == "call" and ev.a == "state.save(0,%s)" % E for ev in p.events)
+            POSN0 = [q.get("name") for q in fn["params"]][2]
+            cut = [i for i, ev in enumerate(p.events) if ev.kind == "cond" and ev.a == "(state.get(0) < %s)" % POSN0]
+            pf = S.PathFacts(p.events, cut[0] if cut else None)
+            capped = any(ev.kind == "call" and ev.a == "state.save(0,%s)" % E for ev in p.events[:cut[0] if cut else None])
             if not capped and not pf.proves("Le", "state.get(0)", E):
                 run.violation(fam, label, "cap-missing", H.where(a[0]), "End returns with start > end possible: the start (slot 0, movable by \\K) must be capped to the end (slot 1)")
+            # the start is also capped from below by the search position (a match from an iteration never
+            # starts before the previous match's end)
+            POSN = [q.get("name") for q in fn["params"]][2]
+            capped_lo = any(ev.kind == "call" and ev.a == "state.save(0,%s)" % POSN for ev in p.events)
+            lo_conds = [ev for ev in p.events if ev.kind == "cond" and ev.a in ("(state.get(0) < %s)" % POSN,)]
+            if not ((capped_lo and lo_conds and lo_conds[-1].b) or (lo_conds and not lo_conds[-1].b)):
+                run.violation(fam, label, "cap-pos-missing", H.where(a[0]), "End returns with start < search position possible (\\K inside a look-behind): consecutive find_iter matches could overlap and split / replace slice text[prev_end..m.start()] would panic")
     run.ok(fam, label, H.where(a[0]), n, "start capped to end before Ok(Some(saves))")
 
 
